@@ -73,11 +73,13 @@ class AbsObj:
 class ViewCell:
     """heap content: a numpy basic-index view (a[i], a[lo:hi], a[:, None], a[::-1]) of another array cell.
     Reading it re-derives the elements from the CURRENT content of the base, so writes to the base are seen
-    through the view, as in numpy.  Writing through a view is outside the subset."""
-    __slots__ = ('base', 'shape', 'mapfn', 'kind')
+    through the view, as in numpy.  Writing through a view is supported for 1-D slice views (a[lo:hi], a[::-1]): the
+    base cell is updated at the positions the view covers (State.put); other views: outside the subset."""
+    __slots__ = ('base', 'shape', 'mapfn', 'kind', 'plan')
 
-    def __init__(self, base, shape, mapfn, kind):
+    def __init__(self, base, shape, mapfn, kind, plan=None):
         self.base, self.shape, self.mapfn, self.kind = base, tuple(shape), mapfn, kind
+        self.plan = plan
 
 
 class State:
@@ -111,8 +113,28 @@ class State:
         return cell
 
     def put(self, ref, content):
-        if isinstance(self.heap.get(ref.id), ViewCell):
-            raise Unsupported('write through a slice view')
+        cell = self.heap.get(ref.id)
+        if isinstance(cell, ViewCell):
+            plan = cell.plan
+            if not (plan is not None and len(plan) == 1 and plan[0][0] == 's' and isinstance(content, Arr) and content.ndim == 1):
+                raise Unsupported('write through a view that is not a 1-D slice')
+            _, start, n, step = plan[0]
+            base = self.get(cell.base)
+            if base.ndim != 1:
+                raise Unsupported('write through a view that is not a 1-D slice')
+
+            def el(jx, base=base, content=content, start=start, n=n, step=step):
+                j = jx[0]
+                i = _sub(j, start) if step == 1 else _sub(start, j)
+                inside = z3.And(to_int(i) >= 0, to_int(i) < to_int(n)) if (is_sym(i) or is_sym(n)) else (0 <= i < n)
+                if inside is True:
+                    return content.elem((i,))
+                if inside is False:
+                    return base.elem(jx)
+                x, y = _unify(content.elem((i,)), base.elem(jx))
+                return z3.If(inside, x, y)
+            self.put(cell.base, Arr(base.shape, el, 'real' if 'real' in (base.kind, content.kind) else base.kind))
+            return
         self.heap[ref.id] = content
         self.ver[ref.id] = self.ver.get(ref.id, 0) + 1
 
@@ -1556,6 +1578,9 @@ class Exec:
         if self.is_arr(v, st):
             a = st.get(v)
             return st.alloc(self.c, Arr(a.shape, lambda ix, a=a: f(a.elem(ix)), kind or a.kind))
+        if isinstance(v, Ref) and isinstance(st.get(v), PyList):
+            a = self.list_to_arr(st.get(v), st)       # numpy converts a list of numbers to an array first
+            return st.alloc(self.c, Arr(a.shape, lambda ix, a=a: f(a.elem(ix)), kind or a.kind))
         if isinstance(v, (Ref, str, tuple)) or v is None:
             raise Unsupported('unary arithmetic on %r' % (v,))
         return f(v)
@@ -1865,7 +1890,7 @@ class Exec:
                 else:
                     o += 1
             return tuple(src)
-        return st.alloc(self.c, ViewCell(ref, tuple(shape), mapfn, a.kind))
+        return st.alloc(self.c, ViewCell(ref, tuple(shape), mapfn, a.kind, plan))
 
     def fancy_index(self, ref, a, plan, st, node):
         # 1-D integer / boolean array index on a 1-D array (permutations, masks via lib.where)
